@@ -455,7 +455,8 @@ fn run_chunk(
                     for (k, v) in &rep.probes {
                         *a.probes.entry(k.clone()).or_insert(0) += v;
                     }
-                    if !rep.signatures.is_empty() {
+                    let nontrivial = !rep.signatures.is_empty();
+                    if nontrivial {
                         a.nontrivial_runs += 1;
                     }
                     for s in rep.signatures {
@@ -464,7 +465,9 @@ fn run_chunk(
                         }
                     }
                     if let Some(s) = rep.sample {
-                        if a.samples.len() < 6 {
+                        // samples shown in the evidence are non-trivial runs (one trivial one
+                        // at most, so that the list is never empty)
+                        if a.samples.len() < 6 && (nontrivial || a.samples.is_empty()) {
                             a.samples.push(s);
                         }
                     }
